@@ -137,7 +137,7 @@ def fresh_root(L):
     sh(f"rm -f {L}/root/replays/*/viol-*.json")
 
 
-def evaluate(L, c, jobs, verbose=False):
+def evaluate(L, c, jobs, verbose=False, skip_suite=False):
     rec = dict(c)
     t0 = time.time()
     sh(f"git -C {L}/repo checkout -q -- .")
@@ -155,7 +155,7 @@ def evaluate(L, c, jobs, verbose=False):
         sh(f"git -C {L}/repo checkout -q -- .")
         return rec
     # the repository's own suite
-    rc, o = sh(f"REPO_DIR={L}/repo timeout 2400 {VERIF}/tools/repo_tests.sh", env=env, timeout=2500)
+    rc, o = (0, "suite passed in an earlier evaluation") if skip_suite else sh(f"REPO_DIR={L}/repo timeout 2400 {VERIF}/tools/repo_tests.sh", env=env, timeout=2500)
     rec["suite"] = "pass" if rc == 0 else ("timeout" if rc == 124 else "fail")
     rec["suite_line"] = (o.strip().split("\n") or [""])[0][:120]
     if verbose:
@@ -269,8 +269,34 @@ def main():
             raise SystemExit("no such candidate")
         L = lane_setup(int(os.environ.get("MUT_LANE", "0")))
         print(json.dumps(evaluate(L, cs[0], int(os.environ.get("MUT_JOBS", "8")), verbose=True), indent=1))
-    elif a[0] == "report":
+    elif a[0] == "recheck":
+        # survivors (suite passes, no check caught them) once more, with the harness as it is now
         rs = [json.loads(l) for l in open(RES)]
+        last = {}
+        for r in rs:
+            last[r["id"]] = r
+        todo = [r for r in last.values() if r.get("status") in ("survived", "inconclusive")]
+        if len(a) > 1:
+            todo = [r for r in todo if r["id"] in a[1:]]
+        L = lane_setup(int(os.environ.get("MUT_LANE", "9")))
+        cs = {c["id"]: c for c in candidates()}
+        for r in todo:
+            if r["id"] not in cs:
+                continue
+            rec = evaluate(L, cs[r["id"]], int(os.environ.get("MUT_JOBS", "8")), skip_suite=True)
+            rec["suite"] = "pass"
+            rec["recheck"] = True
+            rec["harness"] = subprocess.check_output(["git", "-C", VERIF, "rev-parse", "--short", "HEAD"], text=True).strip()
+            open(RES, "a").write(json.dumps(rec) + "\n")
+            print(time.strftime("%H:%M:%S"), rec["id"], rec["file"], rec["line"], rec["op"], rec["status"], rec.get("killed_by", ""), flush=True)
+    elif a[0] == "report":
+        rs0 = [json.loads(l) for l in open(RES)]
+        last = {}
+        for r in rs0:
+            last[r["id"]] = r
+        rs = list(last.values())
+        first_survivors = len({r["id"] for r in rs0 if r.get("status") == "survived" and not r.get("recheck")})
+        print("survivors at first evaluation:", first_survivors)
         by = {}
         for r in rs:
             by[r["status"]] = by.get(r["status"], 0) + 1
